@@ -24,6 +24,19 @@ var reExpField = regexp.MustCompile(`^[A-Za-z_][A-Za-z0-9_]*\.expiration$`)
 
 // returnedValue resolves result #idx of a Return through defer-spill slots and phis (prev = predecessor block taken).
 func returnedValue(ret *ssa.Return, idx int, prev *ssa.BasicBlock) ssa.Value {
+	v := returnedValue0(ret, idx, prev)
+	// the value of a short-circuit expression (return a && b): the operand selected by the path taken
+	if ph, ok := v.(*ssa.Phi); ok && prev != nil && ph.Block() == ret.Block() {
+		for i, p := range ph.Block().Preds {
+			if p == prev && i < len(ph.Edges) {
+				return ph.Edges[i]
+			}
+		}
+	}
+	return v
+}
+
+func returnedValue0(ret *ssa.Return, idx int, prev *ssa.BasicBlock) ssa.Value {
 	v := ret.Results[idx]
 	if u, ok := v.(*ssa.UnOp); ok && u.Op == token.MUL {
 		if a, ok := u.X.(*ssa.Alloc); ok {
@@ -42,13 +55,6 @@ func returnedValue(ret *ssa.Return, idx int, prev *ssa.BasicBlock) ssa.Value {
 				} else {
 					b = nil
 				}
-			}
-		}
-	}
-	if ph, ok := v.(*ssa.Phi); ok && prev != nil {
-		for i, p := range ph.Block().Preds {
-			if p == prev {
-				return ph.Edges[i]
 			}
 		}
 	}
@@ -112,7 +118,28 @@ func checkC18(c *Ctx) {
 			}
 			return "false"
 		}
-		res, err := condForm(f, f.Blocks[0], 0, classify, outcome, 6)
+		// atoms that only occur in a returned boolean expression (return ok && age < exp)
+		var retAtoms []string
+		eachInstr(f, func(in ssa.Instruction) {
+			ret, ok := in.(*ssa.Return)
+			if !ok || len(ret.Results) == 0 {
+				return
+			}
+			vals := []ssa.Value{returnedValue0(ret, 0, nil)}
+			if ph, ok := vals[0].(*ssa.Phi); ok {
+				vals = ph.Edges
+			}
+			for _, v := range vals {
+				if _, isConst := v.(*ssa.Const); isConst {
+					continue
+				}
+				cnd, _ := normCond(v)
+				if a, _, ok := classify(cnd); ok {
+					retAtoms = append(retAtoms, a)
+				}
+			}
+		})
+		res, err := condFormWith(f, f.Blocks[0], 0, classify, outcome, 6, retAtoms)
 		if err != nil || clsErr != "" {
 			msg := clsErr
 			if err != nil {
